@@ -3,7 +3,7 @@
    field tables: Gen/C11_Rinex{2,3}ObsFields.v (regenerated from the source on every run). *)
 From Coq Require Import Ascii String List Bool ZArith QArith Arith Lia.
 From Verif Require Import Lib.Text Lib.Decimal Lib.Fixed Model.C11_Rinex Model.C11_Check Spec.C11_RinexFormat Spec.C11_RinexFile
-     Proofs.C11_Rinex Proofs.C11_File3 Proofs.C11_Hdr3 Proofs.C11_Hdr2 Proofs.C11_File2 Proofs.C11_Extras Proofs.C11_Body2 Proofs.C11_Final3 Proofs.C11_Comments.
+     Proofs.C11_Rinex Proofs.C11_File3 Proofs.C11_Hdr3 Proofs.C11_Hdr2 Proofs.C11_File2 Proofs.C11_Extras Proofs.C11_Body2 Proofs.C11_Final3 Proofs.C11_Comments Proofs.C11_FileText.
 Import ListNotations.
 Local Open Scope nat_scope.
 Local Open Scope string_scope.
@@ -312,6 +312,31 @@ Theorem c11_century_from_first_obs_refuted :
 Proof. exact century_refuted_l. Qed.
 Print Assumptions c11_century_from_first_obs_refuted.
 
+(* ---- the text of a file: lines joined by "\n", WITH OR WITHOUT a final terminator, denote the same lines (what Python's file
+   iteration yields); an unterminated text cannot end with an empty line.  Hence every whole-file theorem holds for both texts. *)
+Theorem file_text_lines : forall term ls, ls <> [] -> Forall no_nl ls -> (term = true \/ last ls "x" <> "") ->
+  text_lines (file_text term ls) = ls.
+Proof. exact Proofs.C11_FileText.file_text_lines. Qed.
+Print Assumptions file_text_lines.
+
+Theorem rinex3_text_roundtrip : forall term rate f, file3_ok f -> Forall no_nl (render_file3 f) ->
+  (term = true \/ last (render_file3 f) "x" <> "") ->
+  parse_v3 G3.header_table G3.obs_table rate (text_lines (file_text term (render_file3 f))) = finish_v3 (final_state3 rate f).
+Proof.
+  intros term rate f Ok N T. rewrite Proofs.C11_FileText.file_text_lines; auto; [apply rinex3_file_roundtrip, Ok|].
+  unfold render_file3, render_header3. destruct (rx (hx0 (f3_x f))); discriminate.
+Qed.
+Print Assumptions rinex3_text_roundtrip.
+
+Theorem rinex2_text_roundtrip : forall term rate f, file2_ok f -> Forall no_nl (render_file2 f) ->
+  (term = true \/ last (render_file2 f) "x" <> "") ->
+  parse_v2 spec_q G2.header_table G2.obs_table rate (text_lines (file_text term (render_file2 f))) = finish_v2 (final_state2 rate f).
+Proof.
+  intros term rate f Ok N T. rewrite Proofs.C11_FileText.file_text_lines; auto; [apply rinex2_file_roundtrip, Ok|].
+  unfold render_file2, render_header2. destruct (rx (hx0 (f2_x f))); discriminate.
+Qed.
+Print Assumptions rinex2_text_roundtrip.
+
 (* ---- non-vacuity *)
 Example wf_cell_ex : cell_wf {| cv := VNum (-353); clli := Some 4%Z; cssi := None |}.
 Proof. repeat split; try discriminate; try (unfold fits_F; vm_compute); lia. Qed.
@@ -394,3 +419,12 @@ Qed.
 Example ex_rows2 : List.length (file_rows2 None ex_file2) = 14 /\ List.length (file_rows2 (Some (30 # 1)) ex_file2) = 13 /\
   nth 1 (render_sat_v2 (ex_sat2 "G01" 11000 false)) "x" = "".
 Proof. vm_compute. repeat split; reflexivity. Qed.
+
+(* the example files satisfy the text hypotheses: no line contains a newline character, the last line is not empty *)
+Example ex_texts : Forall no_nl (render_file3 ex_file3) /\ last (render_file3 ex_file3) "x" <> "" /\
+                   Forall no_nl (render_file2 ex_file2) /\ last (render_file2 ex_file2) "x" <> "".
+Proof.
+  assert (B : forall ls, forallb (all_by (fun c => negb (is_nl c))) ls = true -> Forall no_nl ls)
+    by (intros ls H; apply Forall_forall; intros l Hl; exact (proj1 (forallb_forall _ _) H l Hl)).
+  repeat split; try (apply B; vm_compute; reflexivity); vm_compute; discriminate.
+Qed.
